@@ -35,6 +35,7 @@ RULE = (
     "state = canonical simulator state per period of the base run; non-trivial = base scenario with >=2 sessions in which some constraint-limited or level-limited pilot occurs (pilot < EVSE max while charging)"
 )
 ASSUMPTIONS = [
+    "five block: five sessions with distinct arrivals on an unconstrained six-station network, all 120 listing orders; estimator block: a default-constructed rate estimator after another simulation of the same process with the same session ids vs one whose bound table was explicitly emptied",
     "reuse block: back-to-back reuse of a station with a third event in the same period, all session listing orders",
     "N11: duplicated constraint rows with different limits and a pod too tight for all minimum rates (uninterrupted charging)",
     "sorted schedulers are exercised on the all-finite-rate networks only (property: 'finite-rate sorted schedulers'), with pairwise distinct arrivals/departures/energies so no decision hinges on a tie",
@@ -54,13 +55,15 @@ SCHEDS = {
     "edf-rr": ({"kind": "rr", "sort": "edf", "inc": 1}, 1),
     "llf": ({"kind": "greedy", "sort": "llf"}, None),
     "lrpt-rr": ({"kind": "rr", "sort": "lrpt", "inc": 1}, 2),
+    "fcfs-est": ({"kind": "greedy", "sort": "fcfs", "est": True}, 1),
     "fcfs-unint": ({"kind": "greedy", "sort": "fcfs", "unint": True}, 1),
     "edf-rr-unint": ({"kind": "rr", "sort": "edf", "inc": 1, "unint": True}, 1),
 }
 NET_SCHEDS = {
     "N2": ("altcol1", "altcol3", "actmax", "unc", "unc-k1"),
     "N3": ("altcol1", "altcol3"),
-    "N6": ("fcfs", "edf-rr", "llf", "lrpt-rr", "unc"),
+    "N6": ("fcfs", "edf-rr", "llf", "lrpt-rr", "unc", "fcfs-est"),
+    "N8": ("unc-k1",),
     "N11": ("fcfs-unint", "edf-rr-unint", "llf"),
 }
 
@@ -125,8 +128,34 @@ def reuse_scenarios():
                     yield {"net": "N2", "sessions": ss, "sk": sk}
 
 
+def five_scenarios():
+    """five sessions on five of six unconstrained stations, pairwise distinct arrivals: the plug-in events are handed
+    over in EVERY listing order (5! = 120); only the listing order varies"""
+    for stays in ((2, 2, 2, 2, 2), (5, 1, 3, 1, 2)):
+        ss = [dict(sess("PS-%d" % (i + 1), a, stays[i], "big" if i % 2 == 0 else "small", i), sid="ev%d" % i) for i, a in enumerate((0, 1, 2, 3, 4))]
+        for j, s_ in enumerate(ss):
+            s_["ed"] = s_["d"] + (2, 0, 1)[j % 3]
+        yield {"net": "N8", "sessions": ss, "sk": "unc-k1", "only_kinds": ["rebuild", "session-order"]}
+
+
+def estimator_scenarios():
+    """a default-constructed rate estimator starts without any knowledge of earlier simulations: the same scenario run
+    (1) right after ANOTHER simulation of the same process that used the same session ids on slow-charging vehicles and
+    (2) with an estimator whose table of bounds was explicitly replaced by an empty one - must give identical outputs"""
+    for sort in ("fcfs", "llf"):
+        for kind in ("greedy", "rr"):
+            for kinds2 in (("big", "big"), ("big", "small")):
+                ss = [dict(sess("PS-A", 0, 4, kinds2[0], 0), sid="ev0", ed=6), dict(sess("PS-C", 1, 4, kinds2[1], 1), sid="ev1", ed=9)]
+                yield {"net": "N6", "sessions": ss, "sk": "fcfs-est", "estfresh": {"kind": kind, "sort": sort, "est": True, "inc": 1}}
+
+
 def space(tier, seed):
-    return [dict(b, tier=tier) for b in base_scenarios(tier)] + [dict(b, tier=tier) for b in reuse_scenarios()]
+    return (
+        [dict(b, tier=tier) for b in base_scenarios(tier)]
+        + [dict(b, tier=tier) for b in reuse_scenarios()]
+        + [dict(b, tier=tier) for b in five_scenarios()]
+        + [dict(b, tier=tier) for b in estimator_scenarios()]
+    )
 
 
 def corders(n, tier):
@@ -254,7 +283,11 @@ def execute(base, only=None):
     if isinstance(tr0.error, S.Watchdog):
         viol.append(("base:watchdog", str(tr0.error), None, None, None))
         return viol, info
+    if base.get("estfresh"):
+        return execute_estfresh(base)
     todo = variants(base, tier) if only is None else [tuple(only)]
+    if base.get("only_kinds") and only is None:
+        todo = [(k_, v_) for k_, v_ in todo if k_ in base["only_kinds"]]
     for kind, var in todo:
         tr = S.run_sim(variant_scn(base, **var))
         o = outputs(tr)
@@ -263,6 +296,22 @@ def execute(base, only=None):
         info["runs"] += 1
         info["periods"] += len(tr.periods)
         info["kinds"].append((kind, len(viol) == n0))
+    return viol, info
+
+
+def execute_estfresh(base):
+    spec = base["estfresh"]
+    viol = []
+    # (0) the predecessor: same session ids, vehicles whose batteries take far less than the pilot (the bounds come down)
+    pre = [dict(s_, batt="ideal", e=30.0, cap=80.0, init=0.0, pmax=2.2) for s_ in base["sessions"]]
+    S.run_sim({"net": base["net"], "sessions": pre, "sched": spec, "k": 1, "period": 5})
+    scn = {"net": base["net"], "sessions": base["sessions"], "sched": spec, "k": 1, "period": 5}
+    tr1 = S.run_sim(scn)
+    algo = S.make_algorithm(spec)
+    algo.max_rate_estimator.upper_bounds = {}  # what a newly constructed estimator holds
+    tr2 = S.run_sim(scn, algo=algo)
+    compare("fresh-estimator", {"after": "another simulation with the same session ids"}, outputs(tr2), outputs(tr1), lambda s_, w, ob=None, ex=None: viol.append((s_, w, ob, ex, None)))
+    info = {"runs": 3, "periods": len(tr1.periods) + len(tr2.periods), "tr0": tr2, "kinds": [("fresh-estimator", not viol)]}
     return viol, info
 
 
@@ -291,7 +340,7 @@ def run(base):
         acc.nt((base["net"], base["sk"], tuple((s["st"], s["a"], s["d"], s["kind"]) for s in base["sessions"])))
     for sig, what, o, e, var in viol:
         acc.violation(sig, what, dict(base, variant=var), o, e)
-    acc.sample({"net": base["net"], "sk": base["sk"], "sessions": [(s["st"], s["a"], s["d"], s["kind"]) for s in base["sessions"]], "variants": info["runs"] - 1}, cap=2)
+    acc.sample({"net": base["net"], "sk": base["sk"] if not base.get("estfresh") else base["estfresh"], "sessions": [(s["st"], s["a"], s["d"], s["kind"]) for s in base["sessions"]], "variants": info["runs"] - 1}, cap=2)
     return acc
 
 
